@@ -13,6 +13,7 @@ def run(tier):
     f.out.stage('A model check'); f.model_check(7 if t else 5)
     f.out.stage('B+C model histories on the real engine'); f.replay_model(5 if t else 4)
     f.out.stage('C random programs'); f.random(300 if t else 40, 30 if t else 20, 12, 'LP')
+    f.out.stage('C example applications'); f.examples(20 if t else 4, 12)
     return f.finish('Every executed instruction of every recorded run (model histories to the request bound + random programs) is compared '
                     'with ApplyTarget of Vise.tla;')
 
